@@ -97,6 +97,12 @@ pub trait StreamWait {
 
     #[must_use]
     fn closed(&self) -> bool;
+
+    /// Identity of the underlying shared stream object (verification hook).
+    #[cfg(feature = "verif")]
+    fn verif_id(&self) -> usize {
+        0
+    }
 }
 impl<T: Copy> StreamWait for ReadStream<T> {
     fn wait(&self, need: usize) -> bool {
@@ -105,6 +111,10 @@ impl<T: Copy> StreamWait for ReadStream<T> {
     fn closed(&self) -> bool {
         self.refcount() == 1
     }
+    #[cfg(feature = "verif")]
+    fn verif_id(&self) -> usize {
+        Arc::as_ptr(&self.circ) as *const () as usize
+    }
 }
 impl<T: Copy> StreamWait for WriteStream<T> {
     fn wait(&self, need: usize) -> bool {
@@ -112,6 +122,10 @@ impl<T: Copy> StreamWait for WriteStream<T> {
     }
     fn closed(&self) -> bool {
         self.refcount() == 1
+    }
+    #[cfg(feature = "verif")]
+    fn verif_id(&self) -> usize {
+        Arc::as_ptr(&self.circ) as *const () as usize
     }
 }
 
@@ -250,6 +264,11 @@ impl<T: Copy> WriteStream<T> {
 /// Basically anything that GNU Radio would *not* call a message port.
 #[must_use]
 pub fn new_stream<T>() -> (WriteStream<T>, ReadStream<T>) {
+    #[cfg(feature = "verif")]
+    if let Some(size) = crate::verif::stream_size() {
+        let circ = Arc::new(circular_buffer::Buffer::new(size).unwrap());
+        return (WriteStream { circ: circ.clone() }, ReadStream { circ });
+    }
     let circ = Arc::new(circular_buffer::Buffer::new(DEFAULT_STREAM_SIZE).unwrap());
     (WriteStream { circ: circ.clone() }, ReadStream { circ })
 }
@@ -274,6 +293,10 @@ impl<T> StreamWait for NCReadStream<T> {
     fn closed(&self) -> bool {
         Arc::strong_count(&self.q) == 1
     }
+    #[cfg(feature = "verif")]
+    fn verif_id(&self) -> usize {
+        Arc::as_ptr(&self.q) as *const () as usize
+    }
 }
 
 impl<T> StreamWait for NCWriteStream<T> {
@@ -284,6 +307,10 @@ impl<T> StreamWait for NCWriteStream<T> {
     }
     fn closed(&self) -> bool {
         Arc::strong_count(&self.q) == 1
+    }
+    #[cfg(feature = "verif")]
+    fn verif_id(&self) -> usize {
+        Arc::as_ptr(&self.q) as *const () as usize
     }
 }
 
@@ -342,5 +369,49 @@ impl<T: Len> NCReadStream<T> {
     /// Get the size of the front packet.
     pub fn peek_size(&self) -> Option<usize> {
         self.q.0.lock().unwrap().front().map(|e| e.len())
+    }
+}
+
+/// Verification hooks: number of live handles on the shared stream object.
+#[cfg(feature = "verif")]
+mod verif_hooks {
+    use super::*;
+    impl<T> ReadStream<T> {
+        /// Number of handles (stream ends + live windows) on this stream.
+        #[must_use]
+        pub fn verif_refcount(&self) -> usize {
+            Arc::strong_count(&self.circ)
+        }
+    }
+    impl<T> WriteStream<T> {
+        /// Number of handles (stream ends + live windows) on this stream.
+        #[must_use]
+        pub fn verif_refcount(&self) -> usize {
+            Arc::strong_count(&self.circ)
+        }
+    }
+    impl<T> NCReadStream<T> {
+        /// Number of handles on this stream.
+        #[must_use]
+        pub fn verif_refcount(&self) -> usize {
+            Arc::strong_count(&self.q)
+        }
+        /// Number of queued entries.
+        #[must_use]
+        pub fn verif_len(&self) -> usize {
+            self.q.0.lock().unwrap().len()
+        }
+    }
+    impl<T> NCWriteStream<T> {
+        /// Number of handles on this stream.
+        #[must_use]
+        pub fn verif_refcount(&self) -> usize {
+            Arc::strong_count(&self.q)
+        }
+        /// Number of queued entries.
+        #[must_use]
+        pub fn verif_len(&self) -> usize {
+            self.q.0.lock().unwrap().len()
+        }
     }
 }
